@@ -396,7 +396,8 @@ class SRC:
 
         if config.allow_plugins:
             value = self.parse(hexwords)
-            if value != '' and value != 'null':
+            # A parser with nothing to add returns '', JSON null or None
+            if value and value != 'null':
                 out["SRC Details"] = json.loads(value)
 
         return out
